@@ -67,6 +67,17 @@ func registerIntrinsics(e *Engine) {
 		st.maxlen[s.S] = n
 		return s
 	}
+	I["vCallMade"] = func(st *State, a []Value) Value {
+		v, ok := a[0].(*StructV)
+		if !ok {
+			st.unsupported("vCallMade on %T", a[0])
+		}
+		fv, ok := v.F[1].(*FuncV)
+		if !ok {
+			st.unsupported("vCallMade: value does not hold a MakeFunc closure (%T)", v.F[1])
+		}
+		return st.Call(fv, []Value{a[1]}, nil)
+	}
 	I["vAssume"] = func(st *State, a []Value) Value {
 		st.Assume(a[0].(*Term))
 		return nil
@@ -507,6 +518,57 @@ func registerLibHooks(e *Engine) {
 		st.store(p, nv)
 		return nv
 	}
+	// minimal reflect model for code that only passes Values around:
+	// a Value is the struct {typ, ptr, flag}; ptr stashes the engine value.
+	rv := func(typ Value, payload Value, flag int64) Value {
+		return &StructV{F: []Value{typ, payload, st0IntTerm(flag)}}
+	}
+	H["reflect.ValueOf"] = func(st *State, a []Value) Value {
+		iv, _ := a[0].(*IfaceV)
+		if iv == nil || iv.T == nil {
+			return st.E.Zero(st.E.reflectValueType())
+		}
+		return rv(&PtrV{Obj: st.newObject(nil, "rtype", &StructV{})}, iv.V, int64(reflectKindOf(iv.T)))
+	}
+	H["(reflect.Value).Kind"] = func(st *State, a []Value) Value {
+		v := a[0].(*StructV)
+		f, ok := v.F[2].(*Term)
+		if ok && f.Const {
+			return st.E.intTerm(new(big.Int).And(f.CI, big.NewInt(31)), types.Typ[types.Uint])
+		}
+		st.unsupported("Kind on a symbolic reflect.Value")
+		return nil
+	}
+	H["reflect.TypeOf"] = func(st *State, a []Value) Value {
+		st.E.objCtr++
+		return &IfaceV{T: opaqueDyn, V: &OpaqueV{Name: "reflect.Type", ID: st.E.objCtr}}
+	}
+	H["reflect.MakeFunc"] = func(st *State, a []Value) Value {
+		return rv(&PtrV{Obj: st.newObject(nil, "rtype", &StructV{})}, a[1], 19)
+	}
+	H["(reflect.Value).IsValid"] = func(st *State, a []Value) Value {
+		v := a[0].(*StructV)
+		f, ok := v.F[2].(*Term)
+		if ok && f.Const {
+			return BoolT(f.CI.Sign() != 0)
+		}
+		st.unsupported("IsValid on a symbolic reflect.Value")
+		return nil
+	}
+	H["(reflect.Value).Pointer"] = func(st *State, a []Value) Value {
+		v := a[0].(*StructV)
+		if fv, ok := v.F[1].(*FuncV); ok {
+			id := int64(fv.ID)
+			if id == 0 && fv.Fn != nil {
+				id = int64(1000000 + st.E.fnIndex(fv.Fn.String()))
+			}
+			return st.E.intTerm(big.NewInt(id), types.Typ[types.Uintptr])
+		}
+		st.unsupported("reflect.Value.Pointer on %T", v.F[1])
+		return nil
+	}
+	H["runtime.Callers"] = func(st *State, a []Value) Value { return st.E.intTerm(big.NewInt(0), intT) }
+	H["runtime/debug.Stack"] = func(st *State, a []Value) Value { return &SliceV{} }
 	H["errors.New"] = func(st *State, a []Value) Value {
 		return &IfaceV{T: st.E.errorsStringType(), V: &PtrV{Obj: st.newObject(nil, "errors.New", &StructV{F: []Value{a[0]}})}}
 	}
@@ -529,6 +591,93 @@ func onlyDigits(st *State, s *Term) bool {
 		}
 	}
 	return true
+}
+
+func st0IntTerm(v int64) *Term { return IntT64(v) }
+
+// reflectKindOf maps a static type to its reflect.Kind number.
+func reflectKindOf(t types.Type) int {
+	switch u := t.Underlying().(type) {
+	case *types.Basic:
+		switch u.Kind() {
+		case types.Bool:
+			return 1
+		case types.Int:
+			return 2
+		case types.Int8:
+			return 3
+		case types.Int16:
+			return 4
+		case types.Int32:
+			return 5
+		case types.Int64:
+			return 6
+		case types.Uint:
+			return 7
+		case types.Uint8:
+			return 8
+		case types.Uint16:
+			return 9
+		case types.Uint32:
+			return 10
+		case types.Uint64:
+			return 11
+		case types.Uintptr:
+			return 12
+		case types.Float32:
+			return 13
+		case types.Float64:
+			return 14
+		case types.Complex64:
+			return 15
+		case types.Complex128:
+			return 16
+		case types.String:
+			return 24
+		case types.UnsafePointer:
+			return 26
+		}
+	case *types.Array:
+		return 17
+	case *types.Chan:
+		return 18
+	case *types.Signature:
+		return 19
+	case *types.Interface:
+		return 20
+	case *types.Map:
+		return 21
+	case *types.Pointer:
+		return 22
+	case *types.Slice:
+		return 23
+	case *types.Struct:
+		return 25
+	}
+	return 0
+}
+
+func (e *Engine) reflectValueType() types.Type {
+	if p := e.P.Package("reflect"); p != nil {
+		if t := p.Type("Value"); t != nil {
+			return t.Type()
+		}
+	}
+	panic("reflect not loaded")
+}
+
+func (e *Engine) fnIndex(name string) int {
+	e.P.mu.Lock()
+	defer e.P.mu.Unlock()
+	if e.P.fnIdx == nil {
+		e.P.fnIdx = map[string]int{}
+	}
+	if i, ok := e.P.fnIdx[name]; ok {
+		return i
+	}
+	i := len(e.P.fnIdx) + 1
+	e.P.fnIdx[name] = i
+	return i
 }
 
 func pathBase(s string) string {
